@@ -46,9 +46,8 @@ Rat(n, d) ==
     IN <<2, (s * n) \div g, (s * d) \div g>>
 
 IsNum(v) == v[1] = 2
-\* arithmetic treats "" as 0
-NumOf(v) == IF v = VEmpty THEN VNum(0) ELSE v
-Arithable(v) == v[1] = 2 \/ v = VEmpty
+\* arithmetic is defined on numbers only ("" * 2 is "can't convert String to number")
+Arithable(v) == v[1] = 2
 
 VAdd(x, y) == Rat(x[2] * y[3] + y[2] * x[3], x[3] * y[3])
 VSub(x, y) == Rat(x[2] * y[3] - y[2] * x[3], x[3] * y[3])
@@ -84,11 +83,9 @@ CmpOp(o, x, y) ==
 
 Arith(o, x, y) ==
     IF ~(Arithable(x) /\ Arithable(y)) THEN VErr
-    ELSE LET a == NumOf(x)
-             b == NumOf(y)
-         IN CASE o = "add" -> VAdd(a, b)
-              [] o = "sub" -> VSub(a, b)
-              [] o = "mul" -> VMul(a, b)
+    ELSE CASE o = "add" -> VAdd(x, y)
+           [] o = "sub" -> VSub(x, y)
+           [] o = "mul" -> VMul(x, y)
 
 RECURSIVE EvalE(_, _)
 EvalE(e, row) ==
@@ -166,7 +163,8 @@ RECURSIVE SumOn(_, _)
 SumOn(G, on) ==
     IF G = {} THEN VNum(0)
     ELSE LET r == CHOOSE x \in G : TRUE
-             v == IF Arithable(r[on]) THEN NumOf(r[on]) ELSE VNum(0)
+             \* total/average skip what is not a number ("" and strings)
+             v == IF IsNum(r[on]) THEN r[on] ELSE VNum(0)
          IN VAdd(v, SumOn(G \ {r}, on))
 
 MinOf(V) == CHOOSE v \in V : \A w \in V : VLe(v, w)
@@ -276,13 +274,20 @@ SelectOK(result, base, sels, R) ==
     /\ {r \in base : MatchSels(r, sels, DOMAIN r)} \subseteq result
     /\ result \subseteq {r \in base : MatchSels(r, sels, R)}
 
-\* Lookup on the required columns R (which contain a key): exactly the matching row or
-\* nothing; a mismatch on extra columns may or may not be noticed by the operator
-LookupOK(has, row, base, sels, R) ==
-    LET M == {r \in base : MatchSels(r, sels, R)}
-        F == {r \in M : MatchSels(r, sels, DOMAIN r)}
-    IN /\ Cardinality(M) <= 1
-       /\ IF has THEN row \in M ELSE F = {}
+\* Lookup with values for columns that contain a key: exactly the matching row or nothing.
+\* Operators use the key columns to find the row; "it is ok for sels to contain extra columns,
+\* but they will be ignored ... the originator of the sels is responsible for comparing extra
+\* columns" (query.go) - so the contract is on the result after that comparison:
+\*   a row matching ALL values exists  <=>  Lookup returns it;
+\* a returned row that fails the comparison must still be the row some reported key selects.
+LookupOK(has, row, base, sels, keys) ==
+    LET F == {r \in base : MatchSels(r, sels, DOMAIN r)}
+        SC == {sels[i].c : i \in 1..Len(sels)}
+    IN IF has
+       THEN /\ row \in base
+            /\ F # {} => row \in F
+            /\ \E i \in 1..Len(keys) : Range(keys[i]) \subseteq SC /\ MatchSels(row, sels, Range(keys[i]))
+       ELSE F = {}
 
 \* position machine of Get over a sequence of n rows.
 \* st: "rewound" | "within" | "eof";  result: index of the row returned, 0 = none
